@@ -23,7 +23,8 @@ CODES = {1: "stage went backwards", 2: "proposal id held by two stores", 3: "rec
          4: "voting although the total is below the goal", 5: "expired (insufficientVotes) although not in voting with its deadline behind the block height",
          6: "snapshot validators/powers changed after voting began", 7: "passed store without completedYes / finalized with funds left",
          8: "deadline, goal, type, proposer or pass percentage of a proposal changed", 9: "balances + fee pool + proposal funds grew",
-         10: "funder records survive the distribution"}
+         10: "funder records survive the distribution",
+         11: "declared insufficientFunds (refundable) although the goal was met or the funding deadline had not passed"}
 
 
 def tier_args(ctx):
